@@ -59,12 +59,14 @@ Theorem C17_auth_attempts :
 Proof. exact auth_do_attempts. Qed.
 Print Assumptions C17_auth_attempts.
 
-(* a non-retryable answer is returned at once: one attempt, that answer *)
+(* a non-retryable answer is returned at once: one attempt, that answer (or, when the
+   predicate itself failed, its error) *)
 Theorem C17_nonretryable_at_once :
   forall p cn bd st sc t bh sc' got st1 o t1,
     next_beh sc = (bh, sc') -> serve cn bd st bh t = (got, st1, o, t1) ->
     p_pred p o <> PRetry ->
-    round_trip p cn bd st sc t = mkOut (result_of_outcome o) st1 sc' t1 [EAttempt t got].
+    exists r, (r = result_of_outcome o \/ r = fail_result o) /\
+              round_trip p cn bd st sc t = mkOut r st1 sc' t1 [EAttempt t got].
 Proof. exact round_trip_nonretryable. Qed.
 Print Assumptions C17_nonretryable_at_once.
 
@@ -112,6 +114,7 @@ Theorem C17_not_replayable_once :
       next_beh sc = (bh, sc') /\ serve cn bd st bh t = (got, st1, o, t1) /\
       o_trace (round_trip p cn bd st sc t) = [EAttempt t got] /\
       (o_res (round_trip p cn bd st sc t) = result_of_outcome o \/
+       o_res (round_trip p cn bd st sc t) = fail_result o \/
        o_res (round_trip p cn bd st sc t) = RPanic).
 Proof. exact round_trip_not_replayable. Qed.
 Print Assumptions C17_not_replayable_once.
@@ -140,6 +143,31 @@ Theorem C17_manifest_push_buffered :
   forall bd, bk (manifest_push_body true bd) <> KOneShot /\ bdata (manifest_push_body true bd) = bdata bd.
 Proof. exact manifest_push_replayable. Qed.
 Print Assumptions C17_manifest_push_buffered.
+
+(* blob push (POST, then PUT with the blob; the PUT re-uses the POST's Authorization or is
+   an ordinary request of the auth client): every request of the PUT carries the blob as far
+   as the registry reads it, at the script position after the POST's requests *)
+Theorem C17_blob_push_bodies :
+  forall authc p cn bd sc,
+    wf_body bd ->
+    match u_put (blob_push authc p cn bd sc) with
+    | Some put => forall i t got, nth_error (auth_attempts put) i = Some (t, got) ->
+        got = received bd (nth (length (auth_attempts (u_post (blob_push authc p cn bd sc))) + i) sc default_beh)
+    | None => True
+    end.
+Proof. exact blob_push_bodies. Qed.
+Print Assumptions C17_blob_push_bodies.
+
+(* a one-shot blob reaches the registry in exactly one request of the PUT *)
+Theorem C17_blob_push_oneshot_once :
+  forall authc p cn bd sc,
+    (forall st', rewind bd st' = RwNoGetBody \/ rewind bd st' = RwGetBodyErr) ->
+    match u_put (blob_push authc p cn bd sc) with
+    | Some put => length (auth_attempts put) = 1%nat
+    | None => True
+    end.
+Proof. exact blob_push_not_replayable. Qed.
+Print Assumptions C17_blob_push_oneshot_once.
 
 (* --- cancellation -------------------------------------------------------------- *)
 
@@ -204,6 +232,13 @@ Theorem C17_default_predicate_status :
 Proof. exact default_predicate_status_spec. Qed.
 Print Assumptions C17_default_predicate_status.
 
+(* transport errors: only a net.Error value reporting Timeout() is retried -- Temporary()
+   alone (EMFILE, temporary DNS failures ...) is not; generated from the error branch *)
+Theorem C17_default_predicate_error :
+  forall ne to tmp, default_predicate (OErr ne to tmp) = PRetry <-> (ne = true /\ to = true).
+Proof. exact default_predicate_error_outcome. Qed.
+Print Assumptions C17_default_predicate_error.
+
 Theorem C17_default_policy_wellformed :
   0 < default_min_wait /\ default_min_wait <= default_max_wait /\ 0 <= default_max_retry.
 Proof. exact default_policy_wellformed. Qed.
@@ -228,10 +263,10 @@ Print Assumptions C17_acceptor_complete.
 
 (* --- the hypotheses are satisfiable: concrete runs ---------------------------------- *)
 
-Definition ex_policy := table_policy 3 100 1000 [50; 5000] 7.
+Definition ex_policy := table_policy default_predicate 3 100 1000 [50; 5000] 7.
 Definition ex_body := mkBody KReplay (b "manifest").
 Definition ex_script :=
-  [mkBeh (OStatus 503 [] 0%N) None 10; mkBeh OTimeout (Some 3%nat) 20; mkBeh (OStatus 200 [] 0%N) None 4].
+  [mkBeh (OStatus 503 [] 0%N) None 10; mkBeh (OErr true true false) (Some 3%nat) 20; mkBeh (OStatus 200 [] 0%N) None 4].
 
 Example ex_wf : wf_body ex_body.
 Proof. discriminate. Qed.
@@ -274,6 +309,31 @@ Example ex_auth_warm :
   a_res a = RResp 201 0%N /\
   map snd (attempts (a_first a) ++ attempts (a_second a) ++ attempts (a_third a))
   = [b "manifest"; b "manifest"; b "manifest"].
+Proof. vm_compute. split; reflexivity. Qed.
+
+(* "too many open files" (Temporary, not Timeout) is returned at once; a custom predicate
+   failing on a response gives its error *)
+Example ex_temporary_not_retried :
+  let out := round_trip ex_policy None ex_body (init_state ex_body) [mkBeh (OErr true false true) None 0] 0 in
+  o_res out = RErr true false true /\ length (attempts (o_trace out)) = 1%nat.
+Proof. vm_compute. split; reflexivity. Qed.
+
+Example ex_custom_predicate :
+  let p := table_policy (custom_predicate [(404, PRetry); (503, PFail)] PStop PRetry) 3 100 1000 [] 100 in
+  let out := round_trip p None ex_body (init_state ex_body)
+                        [mkBeh (OStatus 404 [] 0%N) None 0; mkBeh (OErr false false false) None 0;
+                         mkBeh (OStatus 503 [] 0%N) None 0] 0 in
+  o_res out = RPredErr /\ length (attempts (o_trace out)) = 3%nat.
+Proof. vm_compute. split; reflexivity. Qed.
+
+(* blob push: challenged POST (retried once), then the PUT with the POST's credentials,
+   retried once: both PUT requests carry the whole blob *)
+Example ex_blob_push :
+  let u := blob_push true ex_policy None ex_body
+             [mkBeh (OStatus 401 [] 2%N) None 0; mkBeh (OStatus 503 [] 0%N) None 0; mkBeh (OStatus 202 [] 0%N) None 0;
+              mkBeh (OStatus 502 [] 0%N) None 0; mkBeh (OStatus 201 [] 0%N) None 0] in
+  u_res u = RResp 201 0%N /\
+  match u_put u with Some put => map snd (auth_attempts put) = [b "manifest"; b "manifest"] | None => False end.
 Proof. vm_compute. split; reflexivity. Qed.
 
 (* Retry-After: 2 within [100ns, 3s]: honoured *)
